@@ -376,7 +376,7 @@ func (g *gctx) listRules(p *gProp) {
 		if strings.HasPrefix(p.Ty.Ref, "Kind") {
 			def := `["ALPHA"]`
 			if g.clash == "" && g.r.Chance(4) {
-				def = `["NOPE"]` // names no option: the compiler accepts it, buildListRequest does not (NOTICE-4 style class)
+				def = `["NOPE"]` // names no option: a compile error since /repo fb0e252 (before: accepted, buildListRequest failed)
 				g.clash = "enumdefault"
 			}
 			p.Attrs = append(p.Attrs, "listRules.filtering.filterable = true", "listRules.filtering.defaultFilters = "+def)
